@@ -1,1 +1,29 @@
 //! Kani-only child module of rustzx-z80/src/registers.rs (cfg(kani)).
+//! Raw access to the hidden latches and the alternate register file for the C01-C03 harnesses
+//! (hooks/z80/cpu.rs).  No harnesses live here.
+use super::*;
+
+impl Regs {
+    /// hidden Q latch pair: `q` (flags as left by the last instruction, or 0) and `last_q`
+    pub(crate) fn vh_set_hidden(&mut self, q: u8, last_q: u8) {
+        self.q = q;
+        self.last_q = last_q;
+    }
+    pub(crate) fn vh_q(&self) -> u8 {
+        self.q
+    }
+    /// alternate register file in the order A' F' B' C' D' E' H' L'
+    pub(crate) fn vh_set_alt(&mut self, v: [u8; 8]) {
+        self.a_alt = v[0];
+        self.f_alt = v[1];
+        self.b_alt = v[2];
+        self.c_alt = v[3];
+        self.d_alt = v[4];
+        self.e_alt = v[5];
+        self.h_alt = v[6];
+        self.l_alt = v[7];
+    }
+    pub(crate) fn vh_alt(&self) -> [u8; 8] {
+        [self.a_alt, self.f_alt, self.b_alt, self.c_alt, self.d_alt, self.e_alt, self.h_alt, self.l_alt]
+    }
+}
